@@ -172,6 +172,7 @@ void h_increaseCapacity(void) {
   g_expected_allocator = a;
   if (!was_inline) ledger_add(old_tab, (size_t)old_cap * sizeof(Pool));
   int live0 = g_live_blocks;
+  unsigned fails0 = g_alloc_failures;
   _Bool ok = MemoryPoolList_ResourceManager__SlotData__increaseCapacity(l, a);
 #if !SCEN_HEAP
   COVER(ok && was_inline); COVER(!ok);
@@ -193,6 +194,7 @@ void h_increaseCapacity(void) {
           "C04: every existing entry is preserved by growth (ids keep designating the same slots)");
     CHECK(g_live_blocks == live0 + (was_inline ? 1 : 0), "C06: exactly one table block is live after growth");
   } else {
+    CHECK((uint64_t)old_cap >= MAXPOOLS || g_alloc_failures > fails0, "C19: growth is refused only at maxPools or when the allocator fails (the limit does not depend on geometry or history)");
     CHECK(l->capacity_ == old_cap && l->pools_ == old_tab && l->count_ == old_cap, "C05: failed growth leaves the table untouched");
     CHECK(l->pools_[j].slots_ == ej.slots_ && l->pools_[j].capacity_ == ej.capacity_ && l->pools_[j].usage_ == ej.usage_, "entries untouched on failure");
     CHECK(g_live_blocks == live0, "C06: failed growth neither leaks nor frees");
